@@ -206,6 +206,18 @@ pub fn clean_location(rng: &mut Rng, original: &UriRef) -> (&'static str, String
             let sc = if scheme_of(original) == "http" { "https" } else { "http" };
             ("abs-original-host-other-scheme", format!("{}://{}{}{}", sc, host_of(original), clean_path(rng), clean_query(rng)))
         }
+        2 if rng.chance(1, 2) => {
+            // a host that merely starts with the original host, or is a prefix of it
+            let sc = scheme_of(original);
+            let oh = host_of(original);
+            let h = match rng.below(4) {
+                0 => format!("{}.evil.example", oh),
+                1 => format!("{}ing", oh),
+                2 => format!("{}-cdn.example", oh),
+                _ => oh[..oh.len() - 1].to_string(),
+            };
+            ("abs-host-in-prefix-relation", format!("{}://{}{}{}", sc, h, clean_path(rng), clean_query(rng)))
+        }
         2 | 3 => {
             let sc = *rng.pick(&["http", "https"]);
             let h = *rng.pick(&CLEAN_HOSTS);
